@@ -13,7 +13,8 @@ RULE = ('grids built from geometry recipes (rectangular and irregular, all atmos
         'round trip) and their physical signature compared before/after. minc: 2..6 unnormalised volume fractions x 1..3 '
         'fracture-plane sets x scalar/list spacing x full/partial selection, with boundary blocks of zero or huge volume; '
         'embed: volume conservation. Non-trivial = a connection with unequal distances or non-zero gravity cosine was '
-        'reversed, or MINC was applied to a partial selection / unnormalised fractions; distinct = case JSON.')
+        'reversed, or MINC was applied to a partial selection / unnormalised fractions; distinct = case JSON.'
+        " Also: reorder(geo=...) from the geometry the grid was built from, with the geometry's atmosphere type optionally set through its property first; block centres must survive the file (presence included).")
 ASSUMPTIONS = ['gravity cosine and distances are stored for the orientation block[0] -> block[1] (TOUGH2 CONNE record semantics)',
                'after a data-file round trip values are compared to the precision of their fields (relative 6e-4 for 10.4e fields, '
                'absolute 6e-8 for the 10.7f gravity cosine)']
@@ -39,7 +40,7 @@ def physical_signature(grid):
     return blocks, cons
 
 
-def compare_sig(R, tag, before, after, ids=None, tol=None):
+def compare_sig(R, tag, before, after, ids=None, tol=None, nad=True):
     """ids: optional map old id -> new id (file round trip); tol: None = exact"""
     b0, c0 = before; b1, c1 = after
     mp = (lambda i: ids[i]) if ids is not None else (lambda i: i)
@@ -70,7 +71,7 @@ def compare_sig(R, tag, before, after, ids=None, tol=None):
         for j in w['dist']:
             R.check(eq(v['dist'][inv[j]], w['dist'][j]), tag + ':distance',
                     '%r: a block\'s own distance to the interface changed: %r -> %r' % (nm, sorted(v['dist'].values()), sorted(w['dist'].values())))
-            R.check(v['nad'][inv[j]] == w['nad'][j], tag + ':nad', '%r: nad moved to the other block' % (nm,))
+            if nad: R.check(v['nad'][inv[j]] == w['nad'][j], tag + ':nad', '%r: nad moved to the other block' % (nm,))
         # oriented cosine: re-express the reference orientation through the id map
         ids_old = sorted(v['dist'])       # reference orientation of "before": smaller old id -> larger old id
         a_new, b_new = mp(ids_old[0]), mp(ids_old[1])
@@ -98,7 +99,7 @@ def seq_case():
             elif k == 'reorder_geo':
                 steps.append({'op': 'reorder_geo'})
             else:
-                steps.append({'op': 'file'})
+                steps.append({'op': 'file', 'mesh': draw(st.sampled_from(['infile', 'infile', 'meshfile', 'binary']))})
         c = {'k': 'seq', 'rc': rc, 'steps': steps}
         # the geometry's atmosphere type set through its property after construction (the grid is built afterwards)
         if draw(st.integers(0, 2)) == 0: c['atmos_setter'] = draw(st.lists(st.sampled_from([0, 1, 2]), min_size=1, max_size=2))
@@ -224,10 +225,17 @@ def run_seq(case, R):
             dat.grid = grid
             fn = os.path.join(R.tmp, 'g.dat')
             old_by_name = dict((b.name, id(b)) for b in grid.blocklist)
+            from refs.incon_ref import a3i2_print as _p
+            mesh = step.get('mesh', 'infile')
+            if mesh == 'binary' and (any(b.centre is None for b in grid.blocklist) or any(_p(b.name) != b.name for b in grid.blocklist)):
+                mesh = 'meshfile'       # MESHA/MESHB hold centres and verbatim names: only for grids that have both in file form
+            R.label('file:mesh-' + mesh)
+            mf = '' if mesh == 'infile' else os.path.join(R.tmp, 'MESH') if mesh == 'meshfile' else \
+                [os.path.join(R.tmp, 'MESHA'), os.path.join(R.tmp, 'MESHB')]
             with R.lib('write'):
-                dat.write(fn)
+                dat.write(fn, meshfilename=mf)
             with R.lib('read'):
-                d2 = t2data.t2data(fn)
+                d2 = t2data.t2data(fn, meshfilename=mf)
             grid2 = d2.grid
             new_by_name = dict((b.name, id(b)) for b in grid2.blocklist)
             # a name passes through the simulator's (A3,I2) form on the way out and is repaired on the way in
@@ -239,7 +247,7 @@ def run_seq(case, R):
             if not R.check(set(canon.values()) == set(new_by_name), 'file:block-names', 'block names changed in the data file'):
                 return
             ids = dict((old_by_name[n], new_by_name[canon[n]]) for n in old_by_name)
-            compare_sig(R, 'file', before, physical_signature(grid2), ids=ids, tol=6e-4)
+            compare_sig(R, 'file', before, physical_signature(grid2), ids=ids, tol=6e-4, nad=(mesh != 'binary'))    # (MESHB has no NAD fields)
             R.check([b.name for b in grid2.blocklist] == [canon[b.name] for b in grid.blocklist], 'file:block-order', 'block order changed')
             R.check([(c.block[0].name, c.block[1].name) for c in grid2.connectionlist] ==
                     [(canon[c.block[0].name], canon[c.block[1].name]) for c in grid.connectionlist], 'file:connection-order',
